@@ -44,7 +44,7 @@ func c01NamingSpecs(c *Ctx) ([]RunSpec, error) {
 	if err := selfTestTitleModel(); err != nil {
 		return nil, err
 	}
-	n := tierInt(c, 6, 8)
+	n := tierInt(c, 6, 7)
 	// which derivation feeds the client-side header field: read from the source
 	src, err := os.ReadFile(filepath.Join(c.Repo, "generator", "parameters.go"))
 	if err != nil {
